@@ -10,6 +10,7 @@ import (
 	"net"
 	"net/netip"
 	"reflect"
+	"slices"
 	"strconv"
 	"sync"
 	"time"
@@ -546,6 +547,18 @@ func (a *Agent) gatherCandidatesLocalUDPMux(ctx context.Context) error { //nolin
 			return errInvalidAddress
 		}
 		candidateIPs := []net.IP{udpAddr.IP}
+
+		// A mux address of a network type that is not enabled must not be published.
+		var muxNetworkType NetworkType
+		switch {
+		case udpAddr.IP.To4() != nil:
+			muxNetworkType = NetworkTypeUDP4
+		case udpAddr.IP.To16() != nil:
+			muxNetworkType = NetworkTypeUDP6
+		}
+		if muxNetworkType != 0 && !slices.Contains(configuredNetworkTypes(a.networkTypes), muxNetworkType) {
+			continue
+		}
 
 		if _, ok := a.udpMux.(*UDPMuxDefault); ok && !a.includeLoopback && udpAddr.IP.IsLoopback() {
 			// Unlike MultiUDPMux Default, UDPMuxDefault doesn't have
